@@ -6,12 +6,22 @@ import common as C
 from common import Failure, q, z, coq_list
 
 ID = "C18"
-GEN = ["gen_ecc"]
+GEN = ["gen_ecc", "gen_ecc_methods"]
+EXTRA_PROPERTY_FILES = ["SrcEcc"]     # EventCharacteristics.py: the five eccentricity methods regenerated and proved equal to Model/Ecc.v
+SOURCE_TIE_NOTE = ('set_event_data, __init__, eccentricity_from_particles, eccentricity_from_lattice and eccentricity are regenera'
+    'ted by gen_ecc_methods (runtime Model/EccRt.v; **, arctan2, cos, sin as oracles with the law point_law, proved'
+    " for Coq's real functions in C18_source_laws_R) and proved equal to Model/Ecc.v (Properties/SrcEcc.v, 12 theor"
+    'ems) incl. every exception class')
 ALLOWED_AXIOMS = ["ClassicalDedekindReals.sig_forall_dec", "ClassicalDedekindReals.sig_not_dec",
-                  "FunctionalExtensionality.functional_extensionality_dep"]
+                  "FunctionalExtensionality.functional_extensionality_dep",
+                  "Classical_Prop.classic"]      # only C18_source_laws_R (stdlib Rpower/ln and atan2 lemmas depend on it)
 MODEL_INDEPENDENT_OF_PROOFS = True
 TRUSTED = [
     "Coq 8.16.1 kernel + vm_compute (no native_compute)",
+    "stdlib axiom Classical_Prop.classic: used by C18_source_laws_R only (the oracle laws for **, arctan2, cos, sin hold for Coq's "
+    "Rpower/atan2/cos/sin); every other theorem of Properties/SrcEcc.v is closed under the global context",
+    "translator gen_ecc_methods (the five eccentricity methods of EventCharacteristics.py regenerated on every run; runtime Model/EccRt.v; "
+    "Lattice3D.get_coordinates/get_value_by_index pinned by normalised text)",
     "translator tools/py2coq/gen_ecc.py: reads the weight dispatch, the branch chain that picks the radial power, the three "
     "accumulator updates of the loop body, the return expression and the two argument checks of both eccentricity variants, and "
     "checks that eccentricity() passes its arguments through unchanged",
